@@ -1120,7 +1120,9 @@ def c_chistory(h):
         if e is None:
             evs.append("COther")
         else:
-            evs.append("CScenario " + clist(["{| i_id := %d; i_userinfo := %s; i_response := %s; i_codec := %s |}" % (i["id"], cbool(i["userinfo"]), cbool(i["response"]), {"ok": "CodecOk", "unknown": "CodecUnknown", "raises": "CodecRaises"}[i["codec"]]) .replace(" |}", "; i_cookie_values := %s |}" % clist([cstr(v) for v in i.get("cookies", [])], "str")) for i in e], "inter"))
+            evs.append("CScenario " + clist(["{| i_id := %d; i_userinfo := %s; i_response := %s; i_codec := %s; i_cookie_values := %s |}" % (
+                i["id"], cbool(i["userinfo"]), cbool(i["response"]), {"ok": "CodecOk", "unknown": "CodecUnknown", "raises": "CodecRaises"}[i["codec"]],
+                clist([cstr(v) for v in i.get("cookies", [])], "str")) for i in e], "inter"))
     return clist(evs, "cevent")
 
 
@@ -1209,7 +1211,7 @@ def cli_schema(paths):
     return {"openapi": "3.0.2", "info": {"title": "t", "version": "1"}, "paths": paths}
 
 
-def run_cli(raw, responder, extra, userinfo=""):
+def run_cli(raw, responder, extra, userinfo="", sanitize=None):
     """One real `st run`; returns the artefacts, what the loopback server received and what the reporters were given."""
     from click.testing import CliRunner
 
@@ -1246,7 +1248,7 @@ def run_cli(raw, responder, extra, userinfo=""):
     out = {}
     try:
         args = ["run", f"http://{userinfo}127.0.0.1:{rec.port}/openapi.json", "--report", "junit,vcr,har", "--report-dir", td, "--generation-database=none",
-                "--suppress-health-check=all", "--no-color", "--output-sanitize", "true" if userinfo else "false", *extra]
+                "--suppress-health-check=all", "--no-color", "--output-sanitize", "true" if (bool(userinfo) if sanitize is None else sanitize) else "false", *extra]
         sys.argv = ["st"] + args
         os.environ["COLUMNS"] = "200"
         cli_executor.CUSTOM_HANDLERS.append(Capture)
@@ -1455,6 +1457,24 @@ PATHS_PLAIN = {
                         "responses": {"201": {"description": "ok"}}}},
 }
 PATHS_PLAIN["/zz-after-the-post"] = {"get": {"responses": {"200": {"description": "ok"}}}, "delete": {"responses": {"204": {"description": "ok"}}}}
+def cookie_param(name, values):
+    return {"name": name, "in": "cookie", "required": True, "schema": {"type": "string", "enum": values}}
+
+
+# cookie names SimpleCookie refuses / accepts, values with quotes and separators; a body-carrying operation in between
+PATHS_COOKIES = {
+    "/first": {"get": {"parameters": [cookie_param("sid", ["abc", 'q"uo"te', "a b"])], "responses": {"200": {"description": "ok"}}}},
+    "/second": {"post": {"parameters": [cookie_param("tenant/id", ["7"]), cookie_param("a@b", ["x,y"]), cookie_param("plain", ["1"])],
+                         "requestBody": {"content": {"application/json": {"schema": {"type": "object"}}}}, "responses": {"200": {"description": "ok"}}}},
+    "/third": {"get": {"parameters": [cookie_param("(p)", ["{v}"]), cookie_param("q?", ["<1>"])], "responses": {"200": {"description": "ok"}}}},
+    "/zz-last": {"get": {"responses": {"200": {"description": "ok"}}}},
+}
+
+
+def cookie_responder(item):
+    return 200, [("Content-Type", "application/json"), ("Set-Cookie", "tenant/id=9; Path=/"), ("Set-Cookie", 'a@b="x;y"; HttpOnly'), ("Set-Cookie", "=novalue"), ("Set-Cookie", "caf\xe9=1")], b"{}"
+
+
 PATHS_ODATA = {"/users('{id}')": {"get": {"parameters": [{"name": "id", "in": "path", "required": True, "schema": {"type": "integer"}}], "responses": {"200": {"description": "ok"}}}}}
 PATHS_LINKS = {"/u": {"get": {"operationId": "getU", "responses": {"200": {"description": "ok", "links": {"self": {"operationId": "getU"}}}}},
                       "post": {"operationId": "postU", "responses": {"201": {"description": "ok", "links": {"get": {"operationId": "getU"}}}}}}}
@@ -1516,14 +1536,19 @@ def stage_cli(chk, quick):
         ("nasty-bodies", PATHS_PLAIN, nasty_responder(chk.seed), ["--max-examples", "8", "--phases", "examples,coverage,fuzzing", "--checks", "not_a_server_error"], False),
         ("nasty-bodies-preserve", PATHS_PLAIN, nasty_responder(chk.seed + 1), ["--max-examples", "8", "--phases", "coverage,fuzzing", "--checks", "not_a_server_error", "--report-preserve-bytes"], True),
     ]
+    scenarios = [(n, p, r, e, pres, False) for n, p, r, e, pres in scenarios]
+    scenarios += [
+        ("cookies", PATHS_COOKIES, cookie_responder, ["--max-examples", "3", "--phases", "coverage,fuzzing", "--checks", "not_a_server_error"], False, False),
+        ("cookies-sanitized", PATHS_COOKIES, cookie_responder, ["--max-examples", "3", "--phases", "fuzzing", "--checks", "not_a_server_error"], False, True),
+    ]
     if not quick or chk.broken:
-        scenarios += [
+        scenarios += [(n, p, r, e, pres, False) for n, p, r, e, pres in [
             ("all-checks", PATHS_PLAIN, nasty_responder(chk.seed + 2), ["--max-examples", "25", "--phases", "examples,coverage,fuzzing"], False),
             ("all-checks-preserve-workers", PATHS_PLAIN, nasty_responder(chk.seed + 3), ["--max-examples", "25", "--workers", "2", "--report-preserve-bytes"], True),
             ("negative-mode", PATHS_PLAIN, nasty_responder(chk.seed + 4), ["--max-examples", "25", "--mode", "all", "--phases", "coverage,fuzzing", "--checks", "not_a_server_error", "--report-preserve-bytes"], True),
-        ]
-    for name, paths, responder, extra, preserve in scenarios:
-        out = run_cli(cli_schema(paths), responder, extra)
+        ]]
+    for name, paths, responder, extra, preserve, sanitized in scenarios:
+        out = run_cli(cli_schema(paths), responder, extra, sanitize=sanitized)
         stats["runs"] += 1
         stats["exchanges"] += len(out["delivered"])
         chk.seen({"cli": name, "exchanges": len(out["delivered"])}, True)
@@ -1531,7 +1556,12 @@ def stage_cli(chk, quick):
         if not out["delivered"]:
             chk.disagree("st run delivered no exchange to the reporters (the oracle has nothing to look at)", {"scenario": name}, out["console"][-800:], None)
             continue
-        if check_cli_artifacts(chk, name, out, preserve):
+        if name.startswith("cookies"):
+            cookie_headers = [v for _, inter in out["delivered"] for k, vs in inter.request.headers.items() if k.lower() == "cookie" for v in vs]
+            if not any("tenant/id=" in v for v in cookie_headers) or not any("(p)=" in v for v in cookie_headers):
+                chk.disagree("the cookie run sent no Cookie header with an illegal cookie name (nothing to look at)", {"scenario": name}, cookie_headers[:4], None)
+            stats["cookie_headers_with_illegal_names"] = stats.get("cookie_headers_with_illegal_names", 0) + sum("/" in v.split("=")[0] or "(" in v for v in cookie_headers)
+        if check_cli_artifacts(chk, name, out, preserve, sanitized=sanitized):
             stats["clean"] += 1
     # the three repaired behaviours, as ordinary oracle runs (with their non-vacuity conditions)
     for kind in ("junit_rediscovered", "har_userinfo", "unknown_charset"):
